@@ -15,6 +15,7 @@ import re
 import subprocess
 
 import vlib
+from props import analyzer_common as ac
 from props import exec_common as ex
 
 TCFG = """SPECIFICATION Spec
@@ -62,10 +63,12 @@ def run(ctx):
     states = vlib.parse_dump(ctx.spec_path("tsw.dump"))
     ts = type_switches(ctx, states)
     claims = claim_templates(ctx)
+    # claims replayed for another build variant of the package (AnalyzerWork.tla): caseOrder with the method sets of `p [p.test]`
+    variants = ac.variant_runs(ctx, runs=3 if thorough else 2, flags="enable=caseOrder,sloppyLen,badCond,offBy1,nilValReturn,dupSubExpr,dupArg,redundantSprint,preferStringWriter;disable=")
     st, tr = vlib.tlc_states_total(ctx)
     cov = {
         "states": st, "transitions": tr, "traces_validated_against_impl": ts["switches"] + claims["templates"],
-        "type_switches": ts, "claim_templates": claims, "design": design, "exhaustive": True,
+        "type_switches": ts, "claim_templates": claims, "build_variants": variants, "design": design, "exhaustive": True,
         "samples": [{"cases": states[0]["cases"], "dispatch": states[0]["dispatch"]}],
     }
     return ctx.finish("model_checking", cov, ["universe of 4 concrete types, 3 interfaces and nil; case lists of length <= 3",
